@@ -137,6 +137,34 @@ theorem factories_agree (h : BuiltIx o owl E root E' g) (hacyc : ∀ x, ¬ Relat
     obtain ⟨r, q1, nd1, m1⟩ := descendants_closure h v hv
     exact ⟨r, di, db, q1, hdi, hdb, nd1, nddi, nddb, fun x => ⟨by rw [m1 x, mdi x]; rfl, by rw [m1 x, mdb x]; rfl⟩⟩
 
+/-- **Predicates of a matrix-backed graph, characterised by the edge relation** (so they agree with the indexed
+graph's, `indexed_predicates`): for every graph whose matrix represents the rooted edge list - in particular the
+graphs of the incremental and the builder-based factory (`incremental_represents`, `builder_represents`). -/
+theorem matrix_predicates_exact {mg : MGraph κ} (hs : o.Strict) (hrep : Represents o mg E') (a b : κ) (hb : b ∈ mg.nodes) :
+    (∃ r, mg.pred o .parentOf (some a) (some b) = .ok r ∧ (r = true ↔ IsA E' b a)) ∧
+    (∃ r, mg.pred o .childOf (some a) (some b) = .ok r ∧ (r = true ↔ IsA E' a b)) ∧
+    (∃ r, mg.pred o .ancestorOf (some a) (some b) = .ok r ∧ (r = true ↔ Relation.TransGen (IsA E') b a)) ∧
+    (∃ r, mg.pred o .descendantOf (some a) (some b) = .ok r ∧ (r = true ↔ Relation.TransGen (IsA E') a b)) := by
+  obtain ⟨⟨p, hp, _, mp⟩, ⟨c, hc, _, mc⟩⟩ := hrep.direct hs b hb
+  obtain ⟨⟨an, han, _, man⟩, ⟨de, hde, _, mde⟩⟩ := hrep.closure hs b hb
+  have flip : ∀ x y, Relation.TransGen (fun a b => IsA E' b a) x y ↔ Relation.TransGen (IsA E') y x := by
+    intro x y
+    constructor
+    · intro hxy
+      induction hxy with
+      | single hh => exact Relation.TransGen.single hh
+      | tail _ hh ih => exact Relation.TransGen.trans (Relation.TransGen.single hh) ih
+    · intro hxy
+      induction hxy with
+      | single hh => exact Relation.TransGen.single hh
+      | tail _ hh ih => exact Relation.TransGen.trans (Relation.TransGen.single hh) ih
+  refine ⟨⟨_, matrix_predicates o mg .parentOf a b p hp, ?_⟩, ⟨_, matrix_predicates o mg .childOf a b c hc, ?_⟩,
+    ⟨_, matrix_predicates o mg .ancestorOf a b an han, ?_⟩, ⟨_, matrix_predicates o mg .descendantOf a b de hde, ?_⟩⟩
+  · rw [decide_eq_true_iff, mp a]; rfl
+  · rw [decide_eq_true_iff, mc a]; rfl
+  · rw [decide_eq_true_iff, man a]; rfl
+  · rw [decide_eq_true_iff, mde a]; exact flip b a
+
 /-- `is_leaf` is "no children", on both graph classes -/
 theorem leaf_iff_no_children (o : Graph.Ord κ) (mg : MGraph κ) (v : κ) (res : List κ)
     (hm : mg.query o .children (some v) false = .ok res) : mg.isLeaf o (some v) = .ok res.isEmpty := by
